@@ -42,8 +42,30 @@ func (g *Gen) freshResults(st *State, prefix string, sig *types.Signature) []str
 	return rs
 }
 
+// countCall bumps the ghost counter of calls to a repo function (used by gating contracts: calls("F")).
+func (g *Gen) countCall(st *State, key string) {
+	if !strings.Contains(key, repoMod) {
+		return
+	}
+	tag := "N!" + shortName(key)
+	g.sc.regTag(tag, "Int")
+	st.mem[tag] = g.sc.define("calls", "Int", fmt.Sprintf("(+ %s 1)", g.sc.lookup(st, tag)))
+}
+
+func shortName(key string) string {
+	if i := strings.LastIndex(key, "."); i >= 0 {
+		return key[i+1:]
+	}
+	return key
+}
+
 func (g *Gen) call(st *State, v ssa.Value, c *ssa.CallCommon, ins ssa.Instruction) {
 	pos := ins.Pos()
+	if _, isDefer := ins.(*ssa.Defer); !isDefer {
+		if k := calleeKey(c); k != "" {
+			defer g.countCall(st, k)
+		}
+	}
 	if b, ok := c.Value.(*ssa.Builtin); ok {
 		g.builtin(st, v, b, c, pos)
 		return
@@ -99,7 +121,50 @@ func (g *Gen) call(st *State, v ssa.Value, c *ssa.CallCommon, ins ssa.Instructio
 		g.unknownCall(st, v, key, sig)
 		return
 	}
+	g.siteRequires(st, ins, key, pos)
 	g.applyContract(st, v, ct, c.StaticCallee(), sig, args, nil, pos, argVals...)
+}
+
+// siteRequires: extra preconditions of one call site, evaluated in the caller's scope (old = caller entry).
+func (g *Gen) siteRequires(st *State, ins ssa.Instruction, key string, pos token.Pos) {
+	prefix := "sitereq:" + g.fn.String() + ":" + key + "#"
+	var poss []token.Pos
+	for _, b := range g.fn.Blocks {
+		for _, i2 := range b.Instrs {
+			if ci, ok := i2.(ssa.CallInstruction); ok && calleeKey(ci.Common()) == key {
+				poss = append(poss, i2.Pos())
+			}
+		}
+	}
+	n := 1
+	for _, p := range poss {
+		if p < ins.Pos() {
+			n++
+		}
+	}
+	for _, k := range []string{fmt.Sprintf("%s%d", prefix, n), prefix + "*"} {
+		ct := g.eng.db.Contracts[k]
+		if ct == nil {
+			continue
+		}
+		env := g.baseEnv(st)
+		g.addLets(env)
+		g.bindLocalsForSite(env, st)
+		for _, c := range ct.Requires {
+			t, err := env.formula(c.E)
+			if err != nil {
+				g.refusef("site-requires %s: %q: %v", k, c.Text, err)
+				return
+			}
+			label := c.Label
+			if label == "" {
+				label = c.Text
+			}
+			o := g.addObl("pre", "at-site:"+shortName(key)+":"+label, st, t, pos)
+			o.Text = c.Text
+			g.sc.assume(st.pc, t)
+		}
+	}
 }
 
 func (g *Gen) assumeKnownRefAfterCall(st *State, t types.Type, term string) {
@@ -235,6 +300,10 @@ func (g *Gen) applyContract(st *State, v ssa.Value, ct *Contract, fn *ssa.Functi
 	if ct.ModAll {
 		g.havocAll(st)
 	} else {
+		// callee may allocate (also a "pure" one: pure = no effect on pre-existing state)
+		frBefore := g.frontier(st)
+		g.bumpFrontier(st)
+		g.refreshFreshRegion(st, sig, frBefore)
 		if !ct.Pure {
 			for _, loc := range ct.Modifies {
 				if err := g.havocLocation(st, pre, loc); err != nil {
@@ -243,10 +312,6 @@ func (g *Gen) applyContract(st *State, v ssa.Value, ct *Contract, fn *ssa.Functi
 				}
 			}
 		}
-		// callee may allocate (also a "pure" one: pure = no effect on pre-existing state)
-		frBefore := g.frontier(st)
-		g.bumpFrontier(st)
-		g.refreshFreshRegion(st, sig, frBefore)
 	}
 	rs := g.freshResults(st, sanitize(short), sig)
 	for i, r := range rs {
@@ -357,8 +422,9 @@ func (g *Gen) havocLocation(st *State, env *Env, loc string) error {
 	if v.ref == "" || v.ty.Kind != "go" {
 		return fmt.Errorf("not an addressable location")
 	}
-	// havoc the cell(s) at v.ref
+	// havoc the cell(s) at v.ref (the new value may refer to objects allocated by the callee: older than the bumped frontier)
 	nv := g.freshOf("hvc", v.ty.Go)
+	g.assumeKnownRef(st, v.ty.Go, nv)
 	tag := ""
 	if s, ok := x.(*ESel); ok {
 		bv, _ := env.eval(s.X)
